@@ -88,6 +88,46 @@ func isoPartialFileInfo(r *rng.R, indent string, allowNone bool) string {
 	return ""
 }
 
+// isoDenseConfigYAML is the deterministic first configuration of every family: every feature at once,
+// entries addressed to one packager INTERLEAVED with entries for all (so that filtering by packager has
+// something to drop before something it keeps), entries with complete-but-for-the-mode file_info whose
+// source exists, maps and lists both in the base and in an override, and an override block for every format.
+func isoDenseConfigYAML(tree *SrcTree, scriptsDir string) string {
+	isoEnsureAux(scriptsDir)
+	q := strconv.Quote
+	src := func(rel string) string { return q(filepath.Join(tree.Root, rel)) }
+	script := func(n string) string { return q(filepath.Join(scriptsDir, n)) }
+	var b strings.Builder
+	b.WriteString("name: isodense\narch: amd64\nversion: \"1.2.3-rc1+git5\"\nrelease: \"2\"\nmtime: 2023-11-14T22:13:20Z\n")
+	b.WriteString("description: \"dense isolation package\\nsecond line\"\nmaintainer: \"Verif <verif@example.com>\"\nlicense: MIT\nhomepage: https://example.com\n")
+	b.WriteString("depends: [\"libc\", \"bash\"]\nprovides: [\"isodense-virtual\", \"isodense-compat\"]\nrecommends: [\"curl\"]\n")
+	b.WriteString("rpm:\n  buildhost: buildhost.example\n  group: Base\n")
+	b.WriteString("deb:\n  fields:\n    Bugs: base-bugs\n    Origin: base-origin\n")
+	b.WriteString("ipk:\n  fields:\n    Custom: base-custom\n    Other: base-other\n")
+	fmt.Fprintf(&b, "scripts:\n  preinstall: %s\n  postinstall: %s\n", script("preinstall.sh"), script("postinstall.sh"))
+	b.WriteString("contents:\n")
+	fmt.Fprintf(&b, "  - src: %s\n    dst: /usr/share/doc/isodense/README.Debian\n    packager: deb\n", src("share/doc/README"))
+	fmt.Fprintf(&b, "  - src: %s\n    dst: /usr/bin/tool\n", src("bin/tool"))
+	fmt.Fprintf(&b, "  - src: %s\n    dst: /usr/share/doc/isodense/README.rpm\n    packager: rpm\n    type: doc\n", src("share/doc/README"))
+	fmt.Fprintf(&b, "  - src: %s\n    dst: /etc/isodense/app.conf\n    type: config|noreplace\n", src("etc/app.conf"))
+	b.WriteString("  - dst: /var/lib/isodense-apk\n    type: dir\n    packager: apk\n    file_info:\n      owner: app\n")
+	b.WriteString("  - dst: /var/lib/isodense\n    type: dir\n    file_info:\n      owner: app\n      group: staff\n      mtime: 2022-01-02T03:04:05Z\n")
+	fmt.Fprintf(&b, "  - src: %s\n    dst: /usr/bin/tool-link\n    type: symlink\n    file_info:\n      owner: app\n      group: staff\n      mtime: 2022-01-02T03:04:05Z\n", q(filepath.Join(tree.Root, "bin/tool")))
+	fmt.Fprintf(&b, "  - src: %s\n    dst: /usr/share/doc/isodense/README.ipk\n    packager: ipk\n", src("share/doc/README"))
+	fmt.Fprintf(&b, "  - src: %s\n    dst: /usr/share/licenses/isodense/LICENSE\n    type: licence\n    packager: rpm\n    file_info:\n      owner: app\n      group: staff\n      mtime: 2022-01-02T03:04:05Z\n", src("share/doc/LICENSE"))
+	b.WriteString("  - dst: /var/log/isodense.log\n    type: ghost\n    file_info:\n      owner: app\n      group: staff\n      mtime: 2022-01-02T03:04:05Z\n")
+	fmt.Fprintf(&b, "  - src: %s\n    dst: /opt/isodense\n    type: tree\n", src("tree"))
+	fmt.Fprintf(&b, "  - src: %s\n    dst: /usr/share/doc/isodense/README.arch\n    packager: archlinux\n", src("share/doc/README"))
+	fmt.Fprintf(&b, "  - src: %s\n    dst: /usr/share/isodense/empty\n", src("share/empty"))
+	b.WriteString("overrides:\n")
+	b.WriteString("  deb:\n    depends: [\"deb-only-dep\"]\n    umask: 0077\n    deb:\n      compression: xz\n      fields:\n        Bugs: deb-override-bugs\n        Extra: deb-extra\n")
+	b.WriteString("  rpm:\n    depends: [\"rpm-only-dep\"]\n    rpm:\n      group: G\n      compression: zstd\n      signature:\n        key_id: abc\n")
+	fmt.Fprintf(&b, "  apk:\n    provides: [\"apk-virtual\"]\n    scripts:\n      postinstall: %s\n    apk:\n      signature:\n        key_name: isokey\n", script("alt-post.sh"))
+	b.WriteString("  ipk:\n    recommends: [\"ipk-rec\"]\n    ipk:\n      abi_version: \"2\"\n      fields:\n        Custom: ipk-override-custom\n        Extra: z\n")
+	b.WriteString("  archlinux:\n    depends: [\"arch-only-dep\"]\n    umask: 0027\n    archlinux:\n      pkgbase: isobase\n")
+	return b.String()
+}
+
 // genIsoConfigYAML produces the text of an nfpm configuration whose sources
 // point into tree; every random choice comes from r.
 func genIsoConfigYAML(r *rng.R, tree *SrcTree, scriptsDir string) string {
@@ -665,6 +705,9 @@ func runC11(c *Ctx) error {
 	nCfg := c.N(4, 60)
 	for k := 0; k < nCfg; k++ {
 		y := genIsoConfigYAML(r, tree, scripts)
+		if k == 0 {
+			y = isoDenseConfigYAML(tree, scripts)
+		}
 		base, err := isoBaselines(y)
 		if err != nil {
 			c.Rep.Note("generator: configuration does not parse: %v\n%s", err, y)
@@ -704,8 +747,14 @@ func runC11(c *Ctx) error {
 	reported := map[string]int{}
 	for i := 0; i < nSeq; i++ {
 		slot := r2.Intn(len(pool))
+		if i < 40 {
+			slot = 0 // the dense configuration gets the first sequences
+		}
 		if pool[slot] == nil {
 			y := genIsoConfigYAML(r2, tree, scripts)
+			if slot == 0 {
+				y = isoDenseConfigYAML(tree, scripts)
+			}
 			base, err := isoBaselines(y)
 			if err != nil {
 				c.Rep.Note("generator: configuration does not parse: %v\n%s", err, y)
